@@ -126,7 +126,11 @@ class ProxiedCircuit(Circuit):
             if not reverse_injections.was_injected(x)
         )
         if effective_acks:
-            self.send_acks(effective_acks, message.direction, packet_id=message.packet_id)
+            # The stand-in takes the dropped packet's place on the wire, so it has to go out
+            # under the ID that packet would have been sent with.
+            wire_id = fwd_injections.get_effective_id(message.packet_id)
+            fwd_injections.track_seen(wire_id)
+            self.send_acks(effective_acks, message.direction, packet_id=wire_id)
 
 
 class InjectionTracker:
